@@ -43,6 +43,10 @@ template <typename D> static std::string run(const std::vector<std::string> &t) 
 }
 static std::string eval(const std::vector<std::string> &t) {
   if (mode == "oct") return run<oct_t>(t);
+  if (mode == "oct-nr") {   // octagons without re-stabilisation after widening (values stay lazily closed longer)
+    crab::domains::crab_domain_params_man::get().set_param("oct.widen_restabilize", "false");
+    return run<oct_t>(t);
+  }
   if (mode == "look-oct") return run<look_oct_t>(t);
   if (mode == "term-itv") return run<term_itv_t>(t);
   if (mode == "term-zones") return run<term_zones_t>(t);
